@@ -145,10 +145,17 @@ func (r *File) Validate() error {
 func (r *File) Compare(other Rule) int {
 	o, _ := other.(*File)
 
-	letterR := getLetterIn(fileAlphabet, r.Path)
-	letterO := getLetterIn(fileAlphabet, o.Path)
-	if fileWeights[letterR] != fileWeights[letterO] && letterR != "" && letterO != "" {
-		return fileWeights[letterR] - fileWeights[letterO]
+	// Paths without a known prefix form a group of their own, after the known ones:
+	// comparing them by path against the known groups made the order cyclic
+	weightR, weightO := len(fileAlphabet), len(fileAlphabet)
+	if letterR := getLetterIn(fileAlphabet, r.Path); letterR != "" {
+		weightR = fileWeights[letterR]
+	}
+	if letterO := getLetterIn(fileAlphabet, o.Path); letterO != "" {
+		weightO = fileWeights[letterO]
+	}
+	if weightR != weightO {
+		return weightR - weightO
 	}
 	if res := compare(r.Owner, o.Owner); res != 0 {
 		return res
